@@ -137,6 +137,28 @@ def built():
     return sorted(p for p in CHECKS if os.path.exists(os.path.join(rules, p.lower() + ".py")))
 
 
+ROUND8 = {
+    "C01": "holders forward every requested child to Workspace.remove_children (C01.UNLINK forwarding clause; a filter on child.parent only if the parent setter releases before it re-binds)",
+    "C02": "every member handed to the copied property group comes out of the table of copied children on every path (C02.PGMEMBER hand-over, incl. add_properties spelling)",
+    "C03": "writer route table completed for dispatch by computed name (evaluated per candidate attribute); delete-on-None through a wrapped read (C03.RESET)",
+    "C05": "delete permission decided by truth value, identity tests with bool constants not folded (C05.GUARD); in-place child removal unreachable once the child left the list (C05.MEMBER); removal of a concatenated group goes through a loading accessor (C05.CONCAT)",
+    "C06": "find_entity returns None only after every registry was found without a live referent (C06.XLOOKUP)",
+    "C07": "a geometry getter generates defaults only where no array exists, empty arrays included (C07.REGEN, path-sensitive)",
+    "C08": "nothing but the strict codec between text and bytes (C08.CODEC: no error handler, no lossy string op); key conversions dominated by the key-type guard (C08.NARROW)",
+    "C09": "evidence tests of the type sweep partially evaluated per caller (C09.TYPESWEEP gated evidence)",
+    "C11": "every answer of the gateway comes after the raising handle property was evaluated (C11.GATE); readers return cached state of an argument only after consulting the file (C11.STALE)",
+    "C12": "transfer of metadata entries never decided by truth value, comprehensions included (C12.NESTED); copied attributes reachable with all options at default (C12.PLAIN); an option that cuts children also cuts the geometry when given alone (C12.OPTION)",
+    "C13": "sub-grid count not built from a count of hit flags (C13.SPAN); forwarded extent / inverse are the caller's (C13.FWD); coordinates reach the predicate unchanged (C13.COORDS)",
+    "C14": "set_data_value stores into form and data cache on every path (C14.SETVALUE); getters never hand out shared mutable defaults (C14.FRESH); the writer keeps the parameter order (C14.ORDER)",
+    "C15": "every method re-binding a field the validators memo reads drops the cache (C15.RESET); no validation-skipping condition reads a field stored before validating (C15.COMMIT); only `is None` exempts an element from a membership validation (C15.RULES f)",
+    "C16": "every key component handed explicitly to add_data (C16.KEY reverse); collected drape arrays are the shifted objects; merge_data and create_object get the same inputs (C16.PROV)",
+    "C17": "no floor division / rounding on the flow from cell sizes to centres (C17.ROT d); memoised getters never update in place an array aliased from another attribute (C17.ALIAS)",
+    "C18": "desurvey never updates a parameter array or a no-copy view in place (C18.PURE); returns reached by the interval match are computed through it (C18.MAPPED)",
+    "C19": "no store through a persisting setter and no early on_file flag of a type on the load path (C19.LOAD); lazy getters never replace missing stored content by a computed value (C19.INVENT)",
+    "C20": "metadata entries transferred by the EM copy pass through a deep copy (C20.COPYMETA)",
+}
+
+
 def main():
     have = built()
     checks = []
@@ -152,7 +174,7 @@ def main():
                 "engine": "sa",
                 "level_claimed": {"category": "other", "text": text, "design_ref": ref},
                 "level_note": note,
-                "technique": "static analysis: " + tech,
+                "technique": "static analysis: " + tech + ("; round 8 (DESIGN.md §15): " + ROUND8[pid] if pid in ROUND8 else ""),
             }
         )
     na = [
@@ -187,7 +209,7 @@ def main():
         "checks": checks,
         "notes": (
             "All checks are static (python ast over /repo/geoh5py, parsed on every run). Rules decide on normalised code (DESIGN.md §11) and are "
-            "tested both ways: 1487 mutants incl. the 173 reportable of 180 red-team seeds (3 rounds) must be reported, 1090 twins incl. 200 kept behaviour-preserving refactorings (3 batches) must stay silent; a vacuity monitor (tools/instances_drift.py) accounts for every drop of evaluated sites under a refactoring (DESIGN.md §14). "
+            "tested both ways: 1678 mutants incl. the 230 reportable of 240 red-team seeds (4 rounds; 9 value-level / history-dependent misses and 1 obsolete seed are listed in DESIGN.md §15) must be reported, 1164 twins incl. 200 kept behaviour-preserving refactorings (3 batches) must stay silent; a vacuity monitor (tools/instances_drift.py) accounts for every drop of evaluated sites under a refactoring (DESIGN.md §14). "
             "Exit 0 = held (KNOWN-FINDING lines for "
             "recorded genuine defects, /verif/known_findings.json), 1 = VIOLATION, 2 = ANALYSIS-ERROR (anchor lost / floor not met). "
             "Repairs of genuine defects in /repo are separate 'fix:' commits: " + "; ".join(commits)
